@@ -89,6 +89,8 @@ func StdMenu(u *prog.Universe, t *prog.Table, pfx string) []chain.GenContract {
 	t.DefineInit(pfx+"i0", []prog.Op{sstore("s0", 1), logN(1)}, u)
 	t.DefineInit(pfx+"i1", []prog.Op{sstore("s0", 1), opRevert}, u)
 	t.DefineInit(pfx+"i2", []prog.Op{}, u)
+	t.DefineInit(pfx+"i3", []prog.Op{logN(1)}, u)                              // used with empty runtime code
+	t.DefineInit(pfx+"i4", []prog.Op{sstore("s0", 1), selfdestruct("a2")}, u) // constructor self-destructs
 
 	cr := func(salt uint64, init string, value int64, addrName string) prog.Op {
 		return prog.Op{Op: "CREATE2", Init: pfx + init, Runtime: pfx + "rt", Value: value, Salt: salt, Addr: addrName}
@@ -876,8 +878,11 @@ func (w *World) genEthSpec(nextNonce map[string]uint64, baseFee int64, created *
 		s.Gas = pick(r, uint64(21000), 21000, 30000, 60000)
 	case k < 5:
 		s.To = "create"
-		s.Init = w.Tid + "_" + pick(r, "i0", "i1", "i2")
+		s.Init = w.Tid + "_" + pick(r, "i0", "i1", "i2", "i2", "i3", "i4")
 		s.Runtime = w.Tid + "_rt"
+		if strings.HasSuffix(s.Init, "i3") || strings.HasSuffix(s.Init, "i4") || r.Intn(6) == 0 {
+			s.Runtime = "none" // a creation that succeeds and leaves no code behind
+		}
 		s.Value = int64(r.Intn(3))
 		s.Gas = pick(r, uint64(53000), 100000, 200000, 300000)
 	default:
